@@ -32,6 +32,9 @@ func init() {
 			fmt.Println("codec optional fields", ruleGNILCodec(c, r, sc))
 		}
 		fmt.Println("size~enc", ruleSizeEncodeConditions(c, r, map[string]bool{"mp4": true}))
+		fmt.Println("earlyload", ruleLoadBeforeStore(c, r, func(f *ssa.Function) bool {
+			return strings.HasPrefix(SSAFuncName(f), "avc.") || strings.HasPrefix(SSAFuncName(f), "hevc.") || strings.HasPrefix(SSAFuncName(f), "sei.")
+		}))
 		fmt.Println("plural", rulePluralSibling(c, r, nil))
 		ruleStartPosRelative(c, r)
 		fmt.Println("rawfield", ruleReducedNotRaw(c, r, nil))
@@ -2796,4 +2799,154 @@ func valueOf(ins ssa.Instruction) ssa.Value {
 		return v
 	}
 	return nil
+}
+
+// ---- L-EARLYLOAD: a field of the structure being filled is not consulted before it is read from the stream -----------
+
+// ruleLoadBeforeStore (L-EARLYLOAD): in a function that fills a structure it creates (the slice header, SPS or PPS being
+// parsed), a field is not loaded, outside loops, at a point from which the only store to that field is still to come,
+// with the loaded value used after that store: the value used is the zero value, not what the stream coded
+// (`bottomDeltaPresent := … && !sh.FieldPicFlag` computed before field_pic_flag is read). Returns the number of fields
+// that are both stored and loaded in their creating function.
+func ruleLoadBeforeStore(c *Ctx, r *Report, scope func(*ssa.Function) bool) int {
+	n := 0
+	for _, f := range libFuncs(c, scope) {
+		inLoop := map[*ssa.BasicBlock]bool{}
+		for _, l := range naturalLoops(f) {
+			for b := range l.blocks {
+				inLoop[b] = true
+			}
+		}
+		type fld struct {
+			al *ssa.Alloc
+			i  int
+		}
+		loads := map[fld][]*ssa.UnOp{}
+		stores := map[fld][]*ssa.Store{}
+		for _, b := range f.Blocks {
+			for _, ins := range b.Instrs {
+				switch x := ins.(type) {
+				case *ssa.UnOp:
+					if x.Op == token.MUL {
+						if fa, ok := x.X.(*ssa.FieldAddr); ok {
+							if al, ok := fa.X.(*ssa.Alloc); ok {
+								loads[fld{al, fa.Field}] = append(loads[fld{al, fa.Field}], x)
+							}
+						}
+					}
+				case *ssa.Store:
+					if fa, ok := x.Addr.(*ssa.FieldAddr); ok {
+						if al, ok := fa.X.(*ssa.Alloc); ok {
+							stores[fld{al, fa.Field}] = append(stores[fld{al, fa.Field}], x)
+						}
+					}
+				}
+			}
+		}
+		if len(loads) == 0 {
+			continue
+		}
+		var reach map[*ssa.BasicBlock]map[*ssa.BasicBlock]bool
+		for k, ls := range loads {
+			ss := stores[k]
+			if len(ss) != 1 || inLoop[ss[0].Block()] {
+				continue
+			}
+			// the stored value comes from the stream (a call), not a constant default
+			if _, isC := ss[0].Val.(*ssa.Const); isC {
+				continue
+			}
+			n++
+			if reach == nil {
+				reach = blockReach(f)
+			}
+			fv := fieldVar(k.al.Type(), k.i)
+			if fv == nil {
+				continue
+			}
+			key := fmt.Sprintf("%s:%s.%s", SSAFuncName(f), typeName(k.al.Type()), fv.Name())
+			bad := token.NoPos
+			for _, ld := range ls {
+				if inLoop[ld.Block()] || !insReaches(ld, ss[0], reach) || insReaches(ss[0], ld, reach) {
+					continue
+				}
+				// is the loaded value (or something computed from it) used after the store?
+				seen := map[ssa.Value]bool{}
+				var usedAfter func(v ssa.Value, d int) bool
+				usedAfter = func(v ssa.Value, d int) bool {
+					if d > 3 || seen[v] || v.Referrers() == nil {
+						return false
+					}
+					seen[v] = true
+					for _, ref := range *v.Referrers() {
+						if insReaches(ss[0], ref, reach) && ref.Block() != ld.Block() {
+							return true
+						}
+						if rv, ok := ref.(ssa.Value); ok {
+							switch ref.(type) {
+							case *ssa.BinOp, *ssa.UnOp, *ssa.Phi, *ssa.Convert:
+								if usedAfter(rv, d+1) {
+									return true
+								}
+							}
+						}
+					}
+					return false
+				}
+				if usedAfter(ld, 0) {
+					bad = ld.Pos()
+				}
+			}
+			if bad != token.NoPos {
+				r.Bad("L-EARLYLOAD", key, c.Pos(bad), fmt.Sprintf("%s of the structure being filled is loaded before the one place that stores it from the stream, and the loaded (zero) value is used afterwards", fv.Name()))
+			} else {
+				r.OK("L-EARLYLOAD", key, c.Pos(ss[0].Pos()), "the field is not consulted before it is stored")
+			}
+		}
+	}
+	return n
+}
+
+// ---- DEP: CEA-608 is recognised by all four identification fields -----------------------------------------------
+
+// ruleCEA608Identification (DEP): sei.ITUData.IsCEA608 compares each of country code, provider code, user identifier
+// and user data type code with a constant: a registered user data message with the GA94 identifier but another type
+// code (bar data, AFD) is not closed-caption data and must be passed through unchanged.
+func ruleCEA608Identification(c *Ctx, r *Report) {
+	f := c.ssaFunc(r, "DEP", "sei", "ITUData.IsCEA608")
+	if f == nil {
+		return
+	}
+	key := "sei.ITUData.IsCEA608:all-identification-fields"
+	want := map[string]bool{"CountryCode": false, "ProviderCode": false, "UserIdentifier": false, "UserDataTypeCode": false}
+	for _, b := range f.Blocks {
+		for _, ins := range b.Instrs {
+			bo, ok := ins.(*ssa.BinOp)
+			if !ok || (bo.Op != token.EQL && bo.Op != token.NEQ) {
+				continue
+			}
+			for i, o := range []ssa.Value{bo.X, bo.Y} {
+				if _, isC := []ssa.Value{bo.Y, bo.X}[i].(*ssa.Const); !isC {
+					continue
+				}
+				if _, fldName := valueOwnerField(o, 0); fldName != "" {
+					if _, w := want[fldName]; w {
+						want[fldName] = true
+					}
+				}
+			}
+		}
+	}
+	var missing []string
+	for k, ok := range want {
+		if !ok {
+			missing = append(missing, k)
+		}
+	}
+	sort.Strings(missing)
+	if len(missing) > 0 {
+		r.Bad("DEP", key, c.Pos(f.Pos()), "not compared with a constant: "+strings.Join(missing, ", ")+": registered user data of another kind is taken for CEA-608 and parsed as cc_data instead of being passed through")
+	} else {
+		r.OK("DEP", key, c.Pos(f.Pos()), "country code, provider code, user identifier and type code are all compared with constants")
+	}
 }
